@@ -224,11 +224,13 @@ Record imon := mkIMon {
   m_last_to : Z;               (* to-state of the last recorded transition, -1 none; CANDIDATE after Start *)
   m_stop_call : option (Z * Z * Z * bool * bool * Z); (* t0, call, bound, delete-requested, owned-at-call, caller goroutine *)
   m_wsend : Z;                 (* revision of the watch entry handed to the instance and not yet received (0 none / marker) *)
-  m_seen_rev : Z               (* revision of the record in the last piece of news the instance handled as a follower (watch entry or periodic read) *)
+  m_seen_rev : Z;              (* revision of the record in the last piece of news the instance handled as a follower (watch entry or periodic read) *)
+  m_ctx_early : list (Z * Z)   (* (token, time): the promotion context was seen done while the term's claim was still up; excused when the
+                                  claim drops at that same instant (the cancellation is part of ending the term) *)
 }.
 #[export] Instance eta_imon : Settable _ :=
-  settable! mkIMon <m_promotes; m_demotes; m_bal; m_cb_run; m_ctxdone; m_term_ended; m_issues_at; m_issues_n; m_gauge; m_last_to; m_stop_call; m_wsend; m_seen_rev>.
-Definition imon0 := mkIMon 0 0 0 [] [] [] (-1) 0 0 (-1) None 0 0.
+  settable! mkIMon <m_promotes; m_demotes; m_bal; m_cb_run; m_ctxdone; m_term_ended; m_issues_at; m_issues_n; m_gauge; m_last_to; m_stop_call; m_wsend; m_seen_rev; m_ctx_early>.
+Definition imon0 := mkIMon 0 0 0 [] [] [] (-1) 0 0 (-1) None 0 0 [].
 
 Definition mst := amap imon.
 Definition mon_of (m : mst) (i : Z) : imon := match aget m i with Some x => x | None => imon0 end.
@@ -244,11 +246,18 @@ Definition mapply (b b' : base) (m : mst) (te : Z * ev) : mst :=
   | EPromote i tok gid => mupd m i (fun x => x <| m_promotes ::= Z.succ |> <| m_bal ::= Z.succ |> <| m_cb_run ::= cons tok |>)
   | EPromoteRet i tok => mupd m i (fun x => x <| m_cb_run ::= zrem tok |> <| m_term_ended ::= filter (fun p => negb (fst p =? tok)) |>)
   | EDemote i gid => mupd m i (fun x => x <| m_demotes ::= Z.succ |> <| m_bal ::= Z.pred |>)
-  | ECtxDone i tok => mupd m i (fun x => x <| m_ctxdone ::= cons tok |> <| m_term_ended ::= filter (fun p => negb (fst p =? tok)) |>)
+  | ECtxDone i tok =>
+      let x0 := inst_of b i in
+      mupd m i (fun x =>
+        let x1 := x <| m_ctxdone ::= cons tok |> <| m_term_ended ::= filter (fun p => negb (fst p =? tok)) |> in
+        if io_flag x0 && (io_tok x0 =? tok) && zmem tok (m_cb_run x) && negb (io_stopping x0)
+        then x1 <| m_ctx_early ::= cons (tok, t) |> else x1)
   | EFlag i fl cause root gid =>
       let x0 := inst_of b i in
       mupd m i (fun x =>
         let x1 := x <| m_gauge := fl |> in
+        (* the claim drops: a cancellation of this term's context at this very instant was part of it *)
+        let x1 := if negb (zb fl) then x1 <| m_ctx_early ::= filter (fun p => negb ((fst p =? io_tok x0) && (snd p =? t))) |> else x1 in
         if negb (zb fl) && io_flag x0 && zmem (io_tok x0) (m_cb_run x) && negb (zmem (io_tok x0) (m_ctxdone x))
         then x1 <| m_term_ended ::= cons (io_tok x0, t) |> else x1)
   | EWSend i w n isnil rev val => mupd m i (fun x => x <| m_wsend := (if zb isnil then 0 else rev) |>)
@@ -382,9 +391,5 @@ Definition mon_C19 (b : base) (m : mst) (te : Z * ev) : list alarm :=
   let t := fst te in
   (* a term ended at an earlier instant while its callback was running and the context is still live *)
   flat_map (fun ic => when (existsb (fun p => snd p <? t) (m_term_ended (mon_of m (fst ic)))) 1902) (b_cfgs b) ++
-  match snd te with
-  | ECtxDone i tok =>
-      let x := inst_of b i in
-      when (io_flag x && (io_tok x =? tok) && zmem tok (m_cb_run (mon_of m i)) && negb (io_stopping x)) 1901
-  | _ => []
-  end.
+  (* the context of a running callback ended at the previous instant and the claim of its term is still up now *)
+  flat_map (fun ic => when ((b_now b <? t) && existsb (fun p => snd p =? b_now b) (m_ctx_early (mon_of m (fst ic)))) 1901) (b_cfgs b).
